@@ -21,6 +21,10 @@ CHECKS = {
    text="Lean theorems over the store stack appendStore→schemeStore→base map as coded: for every sequence of Puts (aggregation and sync interleaved arbitrarily — both go through the one mutex-held appendStore.Put, a regenerated lock fact) and restarts, the stored rounds are exactly 0..head, linked by previous signatures (chained) or stripped of them (unchained), the wrappers' cached head equals the stored head; a successful Put writes exactly head+1 and changes no stored round, any other Put changes nothing (re-put of the head answers 'already' iff equal); two nodes whose stores satisfy the invariant and hold only verifying beacons agree byte for byte on every common round (induction on the round, under the explicit uniqueness-of-BLS-signatures hypothesis); the repair path cannot replace a valid beacon by a different valid one. Tied to the code by running the real newAppendStore(NewSchemeStore(base)) over trimmed bolt, untrimmed bolt and memdb against the model and against a gap-free/append-only oracle.",
    note="Lean kernel + standard axioms; base store = sorted map (C18 correspondence); sync.Mutex semantics; SigUnique hypothesis; multi-node agreement is the theorem c02_agree plus C01/C10 validity, real multi-node runs are exercised under C05.",
    technique="Lean 4 proof (invariant by induction over op sequences; agreement by induction on rounds) + regenerated lock facts + differential correspondence"),
+ "C10": dict(engine="sync", design="§3 C10",
+   text="Lean theorems over a model of SyncManager (tryNode's receive loop check by check, Sync over an arbitrary list of peers = every permutation, ReSync with its one retry, CheckPastBeacons, CorrectPastBeacons, the StartFollowChain loop with its done channel, Run's admission rule) on top of the C02 store stack; a peer is an arbitrary function from the requested round to a dial error or an arbitrary list of stream items (packet with any round/signature/previous signature/beacon id, stall, close); VerifyBeacon is an oracle. Proved by induction over arbitrary peer behaviours: every base-store change made by any sync entry point, in any mode and variant, is the write of a packet the oracle accepted (c10_only_verified); with the participant stack the writes of a Sync are exactly head+1, head+2, … and nothing stored moves (c10_in_order), the store stays a gap-free linked chain of verifying beacons and the head never moves back (c10_bad_peer_harmless); from a prefix of the true chain, with an honest peer ahead of the target reached before any stalling peer, Sync succeeds with the head exactly at the target for every order and every behaviour of the other peers (c10_converges), also after any sequence of earlier cancelled or failed attempts (c10_converges_restarts, c10_resync_retry, c10_follow_retry); CheckPastBeacons returns exactly the rounds 1..min(upTo, head) that cannot be read back or do not verify (c10_check_exact); Run drops a filled request and replaces a sync exactly when its context is dead or no beacon arrived for factor*period (c10_run_admission). Three places where the code as it is does not satisfy the full statement carry a variant switch: the full theorem is proved for the corrected variant, a _partial theorem and a kernel-checked _counterexample for the as-is variant, and each counterexample is replayed on the real code on every run and reported as KNOWN-FINDING: follow stack + unchained scheme stores out-of-order rounds (c10_follow_order / _partial / _counterexample), the repair path writes verified beacons of rounds outside the requested range into the base store (c10_correct_exact / _partial / _counterexample), StartFollowChain's errChan is a nil channel so a failed Sync is never retried (c10_follow_retry / _counterexample).",
+   note="Lean kernel + standard axioms; crypto is an oracle (labels computed by the real VerifyBeacon on a chain signed with a real 2-of-3 distributed key); Ideal (only the true chain verifies, signatures of distinct rounds differ) is an explicit hypothesis of the convergence, follow-order and repair theorems, StripOk of the validity part of c10_bad_peer_harmless; channels/contexts/goroutines are modelled (a stall ends only by cancellation; liveness against stalling peers needs Run's restart and a favourable rand.Perm, stated as a hypothesis); store = C02/C18 models, the trimmed previous-required store is a view (its Last() failing when the round below the last one is missing is the explicit parameter lastErr); the sampled part: engine 'sync' drives a real SyncManager over the real store stack with scripted in-memory peers (rand.Perm pinned by seeding math/rand), engine 'follow' drives the real StartFollowChain of a real DrandDaemon through its control port against scripted gRPC peers on loopback (a handful of scenarios, wall-clock bound), Run is driven with a fake clock and observed through its log; memdb and PostgreSQL back-ends are not exercised here.",
+   technique="Lean 4 proof (invariants by induction over stream items, peer lists, attempts; counterexamples by kernel evaluation) + regenerated guard-order/stack/errChan facts tied by decide + differential correspondence with variant detection + direct property oracle on the implementation"),
 }
 NOT_YET = {}
 for i in range(1, 21):
